@@ -276,7 +276,7 @@ class PathState(object):
         self._pending = []
         self.z3_only = False
         self.fd_cons = []
-        self._seen_terms = set()
+        self._seen_terms = {}
         self._fdview = {}
 
     # -- solver interface -------------------------------------------------------------------
@@ -290,7 +290,7 @@ class PathState(object):
             k = t.get_id()
             if k in seen:
                 continue
-            seen.add(k)
+            seen[k] = t
             reg = fd.GUARD_REG.get(k)
             if reg is not None:
                 todo.append(reg[0])
@@ -313,7 +313,7 @@ class PathState(object):
                     k = t.get_id()
                     if k in seen:
                         continue
-                    seen.add(k)
+                    seen[k] = t
                     reg = fd.GUARD_REG.get(k)
                     if reg is not None:
                         todo.append(reg[0])
@@ -341,14 +341,14 @@ class PathState(object):
 
         k = z.get_id()
         if k in self._fdview:
-            return self._fdview[k]
+            return self._fdview[k][0]
         try:
             r = bool_node_strict(z)
         except (fd.TooBig, fd.ApplyRaise):
             r = None
         if not isinstance(r, fd.Node):
             r = None
-        self._fdview[k] = r
+        self._fdview[k] = (r, z)
         return r
 
     def _check(self, *extra):
@@ -906,10 +906,18 @@ class Engine(object):
                 return SInt(z3.If(g, zi(new), zi(old)))
             raise NeedFork("merge int")
         gn = bool_node(g)
+        if isinstance(new, SBool) or isinstance(old, SBool):
+            try:
+                return fv_apply(lambda c, a, b: a if c else b, gn, new, old)
+            except LeafRaise:
+                raise NeedFork("merge")
         try:
-            return fv_apply(lambda c, a, b: a if c else b, gn, new, old)
-        except LeafRaise:
-            raise NeedFork("merge")
+            r = fd.ite(gn, new, old)
+        except fd.TooBig:
+            raise NeedFork("merge too big")
+        if isinstance(r, FV) and len(r.values) == 2 and all(isinstance(x, bool) for x in r.values):
+            return fv_apply(lambda x: x, r)
+        return r
 
     def set_local(self, frame, name, v, st):
         decl = frame.locals.get("__globals_decl__")
